@@ -294,6 +294,35 @@ def pair_helpers(fx):
     return out
 
 
+def closed_as_stop_sites(fx):
+    """[(fn record, bb, literal statement)]: `dequeued.unwrap_or(Payload::Stop)` / `unwrap_or_else(|| Payload::Stop)` inside an
+    event loop — the loop reads a closed mailbox (None from the dequeue) as a stop request. The Stop literal there is the
+    receiving side's own default, not a submission."""
+    out = []
+    for f, _k in find_loops(fx):
+        for g in loop_family(fx, f):
+            b = Body(g)
+            for bi, t in b.normal_calls():
+                c = t.get("callee") or ""
+                if not (c.startswith("core::option::") and c.endswith(("::unwrap_or", "::unwrap_or_else"))):
+                    continue
+                if "Option<" + PAYLOAD + "<" not in (t.get("argtys") or [""])[0]:
+                    continue
+                for o in b.origins(t["args"][1]):
+                    if o.kind == "agg" and not o.proj:
+                        st = b.blocks[o.site[0]]["s"][o.site[1]]
+                        if st["r"].get("def") == PAYLOAD and st["r"].get("variant") == "Stop":
+                            out.append((g, bi, st))
+                        elif st["r"].get("ak") == "closure":
+                            cl = fx.fn(st["r"].get("def") or "")
+                            if cl is not None:
+                                cb = Body(cl)
+                                ro = cb.origins([0])
+                                if ro and all(x.kind == "agg" and cb.blocks[x.site[0]]["s"][x.site[1]]["r"].get("variant") == "Stop" for x in ro):
+                                    out.append((g, bi, st))
+    return out
+
+
 def maker_params(fx, what="actor", kinds=None):
     """{loop constructor def: (argument index, field path)}: where the constructor of each event loop receives the actor
     (the value `started` is called on in the loop) or the attached stream — read off the loop coroutine's captures, so a
